@@ -387,3 +387,40 @@ func c07RaceMain(seed int64, n int) int {
 	}
 	return 0
 }
+
+// --- C06/C14 race child: independent hands on several goroutines -------------------------------
+
+// handsRaceMain plays whole hands (start, shuffle, deal, bet, evaluate, settle) on 8 goroutines at the
+// same time; independent games share nothing by design, so the race detector must stay silent and no
+// hand may panic
+func handsRaceMain(seed int64, n int) int {
+	var wg sync.WaitGroup
+	total := NewReport()
+	for g := 0; g < 8; g++ {
+		wg.Add(1)
+		go func(g int) {
+			defer wg.Done()
+			local := NewReport()
+			for i := 0; i < n/8+1; i++ {
+				r := caseRand(seed, int64(600+g), i)
+				c := genCfg(r, GenOpts{})
+				h := &Hand{Prop: "C06", C: c, R: r, Rep: local, Seed: seed, CaseIdx: i}
+				playHand(h, &raceMon{})
+			}
+			total.Merge(local)
+		}(g)
+	}
+	wg.Wait()
+	fmt.Printf("hands=%d closed=%d panics=%d stuck=%d\n", total.Counters["hands"], total.Counters["hands_closed"], total.Counters["hands_panicked"], total.Counters["hands_stuck"])
+	for _, vs := range total.Viol {
+		fmt.Printf("PANIC %s\n", firstLines(vs[0].Msg, 6))
+	}
+	return 0
+}
+
+type raceMon struct{ BaseMon }
+
+func (m *raceMon) Panic(h *Hand, what string) {
+	h.Rep.Inc("hands_panicked")
+	h.Rep.Violate(&Violation{Prop: "C06", Rule: "C06/panic", Cause: "concurrent-hands", Msg: what})
+}
